@@ -36,12 +36,14 @@ type pendingRead struct {
 }
 
 // seq <mem|file> <cap> <op>;<op>;...
-//   w<seed>,<len>  r<off>,<len>  R<len>  s<off>  v  d  c      suffix '!' = expected to park, '^' = wakes parked reads
+//   w<seed>,<len>  r<off>,<len>  R<len>  s<off>  v  d  c  x (close the underlying file)      suffix '!' = expected to park, '^' = wakes parked reads
 func runC18(c []string) string {
 	capacity, _ := strconv.Atoi(c[3])
 	var bl *backlog.Backlog
+	var file *os.File
 	if c[2] == "file" {
 		f, err := os.CreateTemp("", "rsverif-backlog-*")
+		file = f
 		if err != nil {
 			return c[0] + " machinery-error " + err.Error()
 		}
@@ -102,6 +104,13 @@ func runC18(c []string) string {
 			run = func() string { lo, hi, err := bl.DataRange(); return fmt.Sprintf("d:%d:%d:%s", lo, hi, blErr(err)) }
 		case 'c':
 			run = func() string { bl.Close(); return "c" }
+		case 'x': // the owner closes the underlying file: the store's own close will fail
+			run = func() string {
+				if file != nil {
+					file.Close()
+				}
+				return "x"
+			}
 		default:
 			return c[0] + " machinery-error bad-op"
 		}
